@@ -8,7 +8,7 @@ Inductive cin :=
 | ICounter (h : list bytes)
 | ISubkey (h : list bytes)
 | ITable (d : N) (h : list bytes)
-| ITrim (full : bool) (d : N) (h : list bytes) (p : tpred)
+| ITrim (d : N) (h : list bytes) (p : tpred) (h2 : list bytes) (p2 : option tpred)
 | IAccum (bad : bytes) (d : adef expr) (h : list bytes)
 | INum (keep rev : bool) (ps : list Q) (h : list (option Q))
 | IPerm (kind : N) (h1 h2 : list bytes).
@@ -17,7 +17,6 @@ Inductive obs :=
 | OC (items : list (bytes * Z)) (err : N) (total : Z) (groups : N)
 | OS (keys : list bytes) (items : list (bytes * (Z * list Z))) (err : N)
 | OT (t : tobs)
-| OTrim (det : bool) (t : tobs)
 | OA (groups : list (bytes * list bytes)) (n : N)
 | ONm (o : nobs).
 
@@ -32,7 +31,6 @@ Definition obs_eqb (a b : obs) : bool :=
       list_eqb (fun x y : bytes * (Z * list Z) => bytes_eqb (fst x) (fst y) && Z.eqb (fst (snd x)) (fst (snd y)) && Zl_eqb (snd (snd x)) (snd (snd y))) i i'
       && N.eqb e e'
   | OT t, OT t' => tobs_eqb t t'
-  | OTrim det t, OTrim _ t' => if det then tobs_eqb t t' else tobs_rows_eqb t t'
   | OA g n, OA g' n' =>
       list_eqb (fun x y : bytes * list bytes => bytes_eqb (fst x) (fst y) && bl_eqb (snd x) (snd y)) g g' && N.eqb n n'
   | ONm o, ONm o' => nobs_eqb o o'
@@ -41,8 +39,6 @@ Definition obs_eqb (a b : obs) : bool :=
 Definition oeqb (a b : list obs) : bool := list_eqb obs_eqb a b.
 
 (* ---------- model: the observables after every prefix of the history ---------- *)
-Fixpoint scan {S X} (f : S -> X -> S) (h : list X) (s : S) : list S :=
-  s :: match h with [] => [] | x :: r => scan f r (f s x) end.
 Fixpoint prefixes {X} (h : list X) : list (list X) :=
   [] :: match h with [] => [] | x :: r => map (cons x) (prefixes r) end.
 
@@ -51,14 +47,20 @@ Definition oS (s : subkey) : obs := OS (s_keys s) (s_matches s) (s_errors s).
 Definition oT (t : table) : obs := OT (t_obs (map fst (t_cols t)) t).
 Definition oA (st : amap (list bytes)) : obs := OA st (N.of_nat (List.length st)).
 
+(* Sample/Trim histories: samples h, Trim p, samples h2, optionally Trim p2; observed from the state
+   before the first Trim on, with Value/ColTotal probed at every column any sample mentions *)
+Definition trim_ops (h : list bytes) (p : tpred) (h2 : list bytes) (p2 : option tpred) : list top :=
+  map TSample h ++ [TTrim (tpred_eval p) []] ++ map TSample h2 ++
+  match p2 with Some q => [TTrim (tpred_eval q) []] | None => [] end.
+Definition trim_probe (d : N) (h h2 : list bytes) : list bytes :=
+  usort (map (fun x : bytes * bytes * Z => fst (fst x)) (valid3 d (h ++ h2))).
 Definition model (i : cin) : list obs :=
   match i with
   | ICounter h => map oC (scan c_sample h c0)
   | ISubkey h => map oS (scan s_sample h s0)
   | ITable d h => map oT (scan (t_sample d) h t0)
-  | ITrim _ d h p =>
-      let t := t_run d h in
-      [oT t; OTrim (tpred_det p) (t_obs (map fst (t_cols t)) (trim (tpred_eval p) t))]
+  | ITrim d h p h2 p2 =>
+      map (fun t => OT (t_obs (trim_probe d h h2) t)) (skipn (List.length h) (scan (t_opm d) (trim_ops h p h2 p2) t0))
   | IAccum bad d h => map oA (scan (a_sample expr (eval_expr bad) d) h [])
   | INum keep rev ps h =>
       map (fun s => ONm (n_obs rev ps (oks h) s)) (scan (n_sample keep) h num0)
@@ -71,11 +73,6 @@ Definition model (i : cin) : list obs :=
   end.
 
 (* ---------- the property's boolean form on an observed output ---------- *)
-Definition rowcells_eqb (a b : tobs) : bool :=
-  list_eqb (fun x y : bytes * (Z * list Z) => bytes_eqb (fst x) (fst y) && Zl_eqb (snd (snd x)) (snd (snd y)))
-           (to_rows a) (to_rows b).
-Definition subset (a b : list bytes) : bool := forallb (fun x => mem x b) a.
-
 (* numerical: what the property says of the observed statistics, from the sample list alone *)
 Definition num_check (keep rev : bool) (ps : list Q) (all : list Q) (xs : list Q) (nerr : N) (o : nobs) : bool :=
   let n := List.length xs in
@@ -120,26 +117,11 @@ Definition check (i : cin) (o : list obs) : bool :=
   | ICounter h => oeqb (map (fun p => oC (spec_counter p)) (prefixes h)) o
   | ISubkey h => oeqb (map (fun p => oS (spec_subkey p)) (prefixes h)) o
   | ITable d h => oeqb (map (fun p => oT (spec_table d p)) (prefixes h)) o
-  | ITrim full d h p =>
-      let t := spec_table d h in
-      let pre := map fst (t_cols t) in
-      let want := t_obs pre (spec_trim (tpred_eval p) t) in
-      match o with
-      | [b; OTrim _ a] =>
-          obs_eqb (oT t) b &&
-          (if full then tobs_eqb want a
-           else (* what holds of the code as it is: the selected cells are gone, rows without cells are
-                   gone; for a column predicate also the columns, their totals, the sum and min/max *)
-             rowcells_eqb want a && N.eqb (to_nr want) (to_nr a) && N.eqb (to_err want) (to_err a) &&
-             subset (to_cols want) (to_cols a) && subset (to_cols a) pre &&
-             match p with
-             | PCols _ => bl_eqb (to_cols want) (to_cols a) && Zl_eqb (to_tot want) (to_tot a) &&
-                          Z.eqb (to_sum want) (to_sum a) && Z.eqb (to_mn want) (to_mn a) &&
-                          Z.eqb (to_mx want) (to_mx a) && N.eqb (to_nc want) (to_nc a)
-             | _ => true
-             end)
-      | _ => false
-      end
+  | ITrim d h p h2 p2 =>
+      (* the table determined by the cells alone, the cells following Sample (add) / Trim (filter) *)
+      oeqb (map (fun st : cellmap * N => OT (t_obs (trim_probe d h h2) (rebuild (fst st) (snd st))))
+                (skipn (List.length h) (scan (cs_op d) (trim_ops h p h2 p2) ([], 0%N))))
+           o
   | IAccum bad d h => oeqb (map (fun p => oA (spec_accum expr (eval_expr bad) d p)) (prefixes h)) o
   | INum keep rev ps h => num_checks keep rev ps (oks h) (prefixes h) o
   | IPerm _ _ _ => match o with [a; b] => obs_eqb a b | _ => false end
@@ -163,7 +145,6 @@ Definition os (keys : list string) (items : list (string * Z * list Z)) (err : Z
 Definition mkt (cols : list string) (rows : list (string * Z * list Z)) (tot : list Z) (sum mn mx err nr nc : Z) : tobs :=
   mkTO (hxs cols) (map (fun p => (unhex (fst (fst p)), (snd (fst p), snd p))) rows) tot sum mn mx (zn err) (zn nr) (zn nc).
 Definition ot cols rows tot sum mn mx err nr nc : obs := OT (mkt cols rows tot sum mn mx err nr nc).
-Definition otrim cols rows tot sum mn mx err nr nc : obs := OTrim false (mkt cols rows tot sum mn mx err nr nc).
 Definition oa (groups : list (string * list string)) (n : Z) : obs :=
   OA (map (fun p => (unhex (fst p), hxs (snd p))) groups) (zn n).
 (* quantile results: (true, m, e) = value, (false, _, _) = panic *)
@@ -185,8 +166,8 @@ Definition adf (groups : list expr) (cols : list (string * expr * string)) : ade
 Definition kCounter (h : list string) (o : list obs) : cin * list obs := (ICounter (hxs h), o).
 Definition kSubkey (h : list string) (o : list obs) : cin * list obs := (ISubkey (hxs h), o).
 Definition kTable (d : Z) (h : list string) (o : list obs) : cin * list obs := (ITable (zn d) (hxs h), o).
-Definition kTrim (full : bool) (d : Z) (h : list string) (p : tpred) (o : list obs) : cin * list obs :=
-  (ITrim full (zn d) (hxs h) p, o).
+Definition kTrim (d : Z) (h : list string) (p : tpred) (h2 : list string) (p2 : option tpred) (o : list obs) : cin * list obs :=
+  (ITrim (zn d) (hxs h) p (hxs h2) p2, o).
 Definition kAccum (bad : string) (d : adef expr) (h : list string) (o : list obs) : cin * list obs :=
   (IAccum (unhex bad) d (hxs h), o).
 Definition kNum (keep rev : bool) (ps : list (Z * Z)) (h : list (bool * Z * Z)) (o : list obs) : cin * list obs :=
